@@ -240,13 +240,21 @@ def _validate(datum, schema, named_schemas, field, raise_errors, options):
             datum = None
 
         logical_type = extract_logical_type(schema)
+        representable = True
         if logical_type:
             prepare = LOGICAL_WRITERS.get(logical_type)
             if prepare:
-                datum = prepare(datum, schema)
+                try:
+                    datum = prepare(datum, schema)
+                except ValueError:
+                    # The logical type cannot represent this datum (e.g. a
+                    # decimal with too many digits), so it does not match
+                    representable = False
 
         validator = VALIDATORS.get(record_type)
-        if validator:
+        if not representable:
+            result = False
+        elif validator:
             result = validator(
                 datum,
                 schema=schema,
